@@ -176,13 +176,19 @@ class TransformedTargetForecaster(
         self.check_is_fitted()
         self._update_y_X(y, X)
 
+        # the final forecaster was fitted on the transformed series, so the new
+        # data has to pass through the transformers as well, each transformer
+        # seeing the output of the previous one as in `fit`
+        yt = y
         for step_idx, name, transformer in self._iter_transformers():
             if hasattr(transformer, "update"):
-                transformer.update(y, update_params=update_params)
+                transformer.update(yt, update_params=update_params)
                 self.steps_[step_idx] = (name, transformer)
+            if len(yt) > 0:
+                yt = transformer.transform(yt)
 
         name, forecaster = self.steps_[-1]
-        forecaster.update(y, update_params=update_params)
+        forecaster.update(yt, update_params=update_params)
         self.steps_[-1] = (name, forecaster)
         return self
 
